@@ -829,6 +829,85 @@ class Progress:
                 body.name_of(l), p.blocks[:30], fmt_term(fin)[:160], {UNK: 'unrelated/unknown', EQ: 'UNCHANGED', GE: 'only >='}[r])
         return None, 'no usize cursor is assigned in the loop'
 
+    def const_steps(self, body, h):
+        """byte cursors advanced by a CONSTANT on a cycle that looks at characters of the text: returns
+        (n cycles examined, [(cursor name, k, n proven-ASCII characters, path)] unjustified steps).
+        A constant step of k bytes is justified when the cycle has matched k characters against ASCII literals (a
+        `match`/`==` on the char read at the cursor, or a lookahead for an ASCII string literal); a predicate like
+        char::is_numeric / is_whitespace accepts multi-byte characters, after which `+ 1` lands inside a character."""
+        cyc, ovf = self.cycles(body, h)
+        if ovf or not cyc:
+            return 0, []
+        out = []
+        n = 0
+        cands = sorted({l for l in self.loop_assigned(body, h) if body.lty(l) == 'usize' and body.name_of(l)})
+        for l in cands:
+            base = self.base_of(body, l)
+            for p in cyc:
+                fin = p.env.get((l, ()), base)
+                k = 0
+                x = fin
+                while isinstance(x, tuple) and x and x[0] == 'bin' and x[1] == 'Add' and (is_const(x[2]) or is_const(x[3])):
+                    c, rest = (x[2], x[3]) if is_const(x[2]) else (x[3], x[2])
+                    if not isinstance(c[1], int):
+                        break
+                    k += c[1]
+                    x = rest
+                if k <= 0 or x != base:
+                    continue
+                # does the cycle read characters of a str slice that starts at the cursor?
+                def reads_at_cursor(t):
+                    return term_has(t, lambda y: isinstance(y, tuple) and y and y[0] == 'call'
+                                    and strip_generics(y[1]).split('::')[-1] in ('chars', 'char_indices', 'as_bytes', 'bytes')
+                                    and term_has(y, lambda z: z == base))
+                looked = [t for t, v in p.conds if reads_at_cursor(t)]
+                looked += [e[5] for e in p.events if e[0] == 'call' and len(e) > 5 and isinstance(e[5], tuple) and reads_at_cursor(e[5])]
+                if not looked:
+                    continue
+                n += 1
+                def char_read(t):
+                    """t IS a character taken from the text at the cursor (not a predicate over one)"""
+                    x = t
+                    while isinstance(x, tuple) and x:
+                        if x[0] in ('field', 'downcast', 'deref', 'ref'):
+                            x = x[1]
+                        elif x[0] == 'cast':
+                            x = x[2]
+                        elif x[0] == 'call' and strip_generics(x[1]).split('::')[-1] in ('unwrap', 'expect', 'unwrap_unchecked') and x[2]:
+                            x = x[2][0]
+                        else:
+                            break
+                    return isinstance(x, tuple) and x and x[0] == 'call' and strip_generics(x[1]).split('::')[-1] in ('next', 'nth', 'peek') \
+                        and reads_at_cursor(x)
+                ascii_terms = set()
+                for t, v in p.conds:
+                    if isinstance(v, int) and not isinstance(v, bool) and 0 < v < 128 and char_read(t):
+                        ascii_terms.add(t)
+                    # an upper bound below 128 (range patterns: '0'..='9' compiles to two comparisons)
+                    if t[0] == 'bin' and t[1] in ('Le', 'Lt', 'Ge', 'Gt') and isinstance(v, int):
+                        op = t[1] if v == 1 else {'Le': 'Gt', 'Lt': 'Ge', 'Ge': 'Lt', 'Gt': 'Le'}[t[1]]
+                        a, b_ = t[2], t[3]
+                        if op in ('Ge', 'Gt'):
+                            a, b_ = b_, a       # b_ >= a  ==  a <= b_
+                        if is_const(b_) and isinstance(b_[1], int) and b_[1] <= 128 and char_read(a):
+                            ascii_terms.add(a)
+                    # char::is_ascii*() held
+                    if t[0] == 'call' and strip_generics(t[1]).split('::')[-1].startswith('is_ascii') and v == 1 and t[2] and char_read(strip_ref(t[2][0])):
+                        ascii_terms.add(strip_ref(t[2][0]))
+                    # c == literal written as a comparison
+                    if t[0] == 'bin' and t[1] in ('Eq', 'Ne') and ((t[1] == 'Eq') == (v == 1)):
+                        for a, b_ in ((t[2], t[3]), (t[3], t[2])):
+                            if is_const(b_) and isinstance(b_[1], int) and 0 < b_[1] < 128 and char_read(a):
+                                ascii_terms.add(a)
+                self.set_conds(p.conds)
+                la = 0
+                for s_, y in self.LA:
+                    if s_.isascii() and self.rel(y, base, body) == EQ:
+                        la = max(la, len(s_))
+                if k > len(ascii_terms) + la:
+                    out.append((body.name_of(l), k, len(ascii_terms) + la, p))
+        return n, out
+
     def only_borrowed(self, body, h, it):
         """the iterator local is only mutably borrowed (for next()) in the loop, never re-assigned"""
         blocks = body.loops()[h]
